@@ -74,7 +74,7 @@ func sroaStructOf(t types.Type, pkg *types.Package, pkgPath string) (*types.Name
 	if !ok {
 		return nil, nil, false
 	}
-	if baselineFuncs["type:"+pkgPath+"."+n.Obj().Name()] {
+	if baselineFuncs["type:"+pkgPath+"."+refTypeNameOf(n)] {
 		return nil, nil, false
 	}
 	for i := 0; i < st.NumFields(); i++ {
